@@ -461,7 +461,60 @@ impl Gen {
         for (_, t, minlen) in &f.params {
             args.push(self.arg_for(t, *minlen, effects)?);
         }
+        if effects && self.rng.chance(45) {
+            self.alias_arguments(f, &mut args);
+        }
         Some(args)
+    }
+    /// Aliasing on purpose: a pointer argument `&P` together with a view argument that is P itself or a projected
+    /// place inside P (a member that is a structure or an array, an element of an array of structures): the callee's
+    /// writes through the pointer must be visible through the view (features.md "Views", view_aliasing.pn).
+    fn alias_arguments(&mut self, f: &FnSig, args: &mut [Value]) {
+        let ptrs: Vec<usize> = (0..f.params.len()).filter(|&i| matches!(&f.params[i].1, Ty::Ptr(e) if !matches!(**e, Ty::Ptr(_)))).collect();
+        let views: Vec<usize> = (0..f.params.len()).filter(|&i| matches!(&f.params[i].1, Ty::View(_)) || self.is_struct(&f.params[i].1)).collect();
+        if ptrs.is_empty() || views.is_empty() {
+            return;
+        }
+        let pi = ptrs[self.rng.below(ptrs.len())];
+        let vi = views[self.rng.below(views.len())];
+        let (pointee, pminlen) = match &f.params[pi].1 {
+            Ty::Ptr(e) => ((**e).clone(), f.params[pi].2),
+            _ => return,
+        };
+        let (vt, vminlen) = (f.params[vi].1.clone(), f.params[vi].2);
+        // roots: writable places (not themselves pointers) whose type fits the pointer parameter
+        let roots: Vec<PlaceRef> = self
+            .places()
+            .into_iter()
+            .filter(|p| {
+                p.writable && p.base().1 == 0 && match (&pointee, p.base().0) {
+                    (Ty::View(e), Ty::Arr(n, e2)) => e == e2 && *n >= pminlen,
+                    (Ty::View(_), _) => false,
+                    (x, y) => x == y,
+                }
+            })
+            .collect();
+        let mut pairs: Vec<(Value, Value)> = Vec::new();
+        for r in roots {
+            let mut subs = Vec::new();
+            self.walk(r.clone(), 0, &mut subs);
+            for q in subs {
+                let fits = match (&vt, q.base()) {
+                    (Ty::View(e), (Ty::Arr(n, e2), 0)) => **e == **e2 && *n >= vminlen,
+                    (Ty::Named(_), (b, 0)) => *b == vt,
+                    _ => false,
+                };
+                if fits {
+                    pairs.push((r.reference(1), q.reference(0)));
+                }
+            }
+        }
+        if pairs.is_empty() {
+            return;
+        }
+        let (p, v) = pairs[self.rng.below(pairs.len())].clone();
+        args[pi] = p;
+        args[vi] = v;
     }
     fn arg_for(&mut self, t: &Ty, minlen: usize, effects: bool) -> Option<Value> {
         match t {
@@ -1008,6 +1061,53 @@ impl Gen {
             self.observe(out);
         }
     }
+    /// The callee writes a cell through a pointer parameter and then reads the same cell through a view parameter
+    /// whose type occurs inside the pointee: if the caller passed aliasing arguments (`alias_arguments`), the view
+    /// must show the write.
+    fn alias_idiom(&mut self, out: &mut Vec<Value>) {
+        let ps: Vec<Variable> = self.scopes[0].clone();
+        let mut cands: Vec<(PlaceRef, Variable)> = Vec::new();
+        for pp in ps.iter().filter(|v| matches!(&v.ty, Ty::Ptr(e) if !matches!(**e, Ty::Ptr(_)))) {
+            let root = PlaceRef { x: pp.name.clone(), steps: Vec::new(), ty: pp.ty.clone(), writable: false, minlen: pp.minlen, depth: 0, through_ptr: false, root_param: true };
+            let mut subs = Vec::new();
+            self.walk(root, 0, &mut subs);
+            for vp in ps.iter().filter(|v| matches!(v.ty, Ty::View(_)) || self.is_struct(&v.ty)) {
+                for q in &subs {
+                    let fits = match (&vp.ty, q.base().0) {
+                        (Ty::View(e), Ty::Arr(n, e2)) => **e == **e2 && *n >= vp.minlen,
+                        (Ty::View(e), Ty::View(e2)) => **e == **e2 && q.minlen >= vp.minlen && q.steps.is_empty(),
+                        (Ty::Named(_), b) => *b == vp.ty,
+                        _ => false,
+                    };
+                    if fits {
+                        cands.push((q.clone(), vp.clone()));
+                    }
+                }
+            }
+        }
+        if cands.is_empty() {
+            return;
+        }
+        let (q, vp) = cands[self.rng.below(cands.len())].clone();
+        // a leaf below the view parameter, and the same steps below the place reached through the pointer
+        let vroot = PlaceRef { x: vp.name.clone(), steps: Vec::new(), ty: vp.ty.clone(), writable: false, minlen: vp.minlen, depth: 0, through_ptr: false, root_param: true };
+        let mut leaves = Vec::new();
+        self.walk(vroot, 0, &mut leaves);
+        let leaves: Vec<PlaceRef> = leaves.into_iter().filter(|l| matches!(l.base(), (Ty::Prim(t), 0) if *t != "bool") && l.steps.iter().all(|s| s["k"] == "m" || s["e"]["k"] == "lit")).collect();
+        if leaves.is_empty() {
+            return;
+        }
+        let leaf = leaves[self.rng.below(leaves.len())].clone();
+        let t = if let Ty::Prim(t) = leaf.base().0 { *t } else { unreachable!() };
+        let mut steps = q.steps.clone();
+        steps.extend(leaf.steps.iter().cloned());
+        self.calls_left = 0;
+        let e = self.expr(t, 1);
+        let through = json!({"k": "ref", "x": q.x, "addr": 0, "steps": steps});
+        let e = if self.rng.chance(60) { json!({"k": "bin", "op": "+", "l": through, "r": e}) } else { e };
+        out.push(json!({"k": "A", "r": {"x": q.x, "addr": 0, "steps": steps}, "e": e}));
+        out.push(json!({"k": "P", "e": leaf.reference(0)}));
+    }
     /// a statement of the callee that uses its parameter
     fn touch_param(&mut self, v: &Variable, out: &mut Vec<Value>) {
         self.calls_left = 0;
@@ -1236,8 +1336,34 @@ impl Gen {
         let mut params = Vec::new();
         let mut sig = Vec::new();
         self.scopes = vec![Vec::new()];
-        for _ in 0..np {
-            let (t, minlen) = self.param_type();
+        // now and then a (pointer to X, view of something inside X) pair, the shape in which aliasing shows
+        let mut forced: Vec<(Ty, usize)> = Vec::new();
+        if self.rng.chance(25) {
+            let structs: Vec<StructDecl> = self.structs.iter().filter(|d| d.bits.is_none() && !d.has_ptr).cloned().collect();
+            if !structs.is_empty() {
+                let d = structs[self.rng.below(structs.len())].clone();
+                let outer = Ty::Named(d.name.clone());
+                // views of: the structure itself, a member structure, an array member
+                let mut inner: Vec<(Ty, usize)> = vec![(outer.clone(), 0)];
+                for (_, t) in &d.ms {
+                    match t {
+                        Ty::Named(_) if self.is_struct(t) => inner.push((t.clone(), 0)),
+                        Ty::Arr(n, e) if *n >= 1 => inner.push((view((**e).clone()), 1 + self.rng.below(*n))),
+                        _ => {}
+                    }
+                }
+                let v = inner[self.rng.below(inner.len())].clone();
+                forced.push((ptr(outer), 0));
+                forced.push(v);
+            } else {
+                let it = Ty::Prim(self.int_type());
+                let n = 1 + self.rng.below(3);
+                forced.push((ptr(view(it.clone())), n));
+                forced.push((view(it), n));
+            }
+        }
+        for k in 0..np.max(forced.len()) {
+            let (t, minlen) = if k < forced.len() { forced[k].clone() } else { self.param_type() };
             let p = self.fresh("p");
             params.push(json!({"x": p, "ty": ty_json(&t)}));
             let hidden = false;
@@ -1274,13 +1400,17 @@ impl Gen {
                 self.touch_param(v, &mut body);
             }
         }
+        if self.rng.chance(70) {
+            self.alias_idiom(&mut body);
+        }
         self.statements(&mut body, 1, None);
         if !self.fns.is_empty() && self.rng.chance(50) {
             let g = self.fns[self.rng.below(self.fns.len())].clone();
             self.call_with_setup(&g, &mut body);
         }
         for v in &ps {
-            if self.rng.chance(35) {
+            let is_view = matches!(v.ty, Ty::View(_)) || self.is_struct(&v.ty);
+            if self.rng.chance(if is_view { 65 } else { 35 }) {
                 self.touch_param(v, &mut body);
             }
         }
